@@ -64,7 +64,12 @@ Inductive desc :=
 | DPrefixMap (m : list (list Z * pv))            (* Python only *)
 | DCompound (ds : list desc)                     (* kind 7: Either / Trait(...) -> TraitCompound *)
 | DUnion (ds : list desc)                        (* Union: Python only *)
-| DArray (dt : option Z) (shape : option (list dim)) (casting : Z).  (* numpy Array: Python only *)
+| DArray (dt : option Z) (shape : option (list dim)) (casting : Z)   (* numpy Array: Python only *)
+| DProperty (d : desc)       (* settable validated Property(<trait>): validated with the trait's Python validate *)
+| DVTuple (ds : list desc) (fv : option Z)    (* ValidatedTuple(traits.., fvalidate=f): Python only; f is oracle 500 + fv *)
+| DList (d : desc) (minlen maxlen : Z)        (* List(<trait>, minlen=, maxlen=): Python only; a member of Tuple / Either / Union *)
+| DRangeDyn (lo hi : Z) (mask : Z).           (* Range(low='lo', high='hi'): bounds are OTHER attributes of the instance (ids lo,
+                                                 hi); validated against the instance state: see C01.Model.validate_s *)
 
 Inductive vres := Accept (w : pv) | Reject | Propagate (e : exn).
 
@@ -92,7 +97,7 @@ Fixpoint is_fast (d : desc) : bool :=
   | DTuple ds => negb (is_nil_pv ds)                 (* trait_types.py:2333-2348 *)
   | DCompound ds => existsb is_fast ds               (* trait_handlers.py:680-686 *)
   | DAny | DRangeI _ _ _ | DType _ _ | DString _ _ _ | DPrefixList _ | DPrefixMap _ | DUnion _
-  | DArray _ _ _ => false
+  | DArray _ _ _ | DProperty _ | DVTuple _ _ | DList _ _ _ | DRangeDyn _ _ _ => false
   end.
 
 (* ---------- ctraits.c:3535 in_float_range (reference; T2 regenerates it from the source) ---------- *)
@@ -344,6 +349,56 @@ Definition py_array (E : env) (dt : option Z) (shape : option (list dim)) (casti
       end
   end.
 
+(* BaseTuple.validate (trait_types.py:2386-2413) + ValidatedTuple.validate (2526-2535): lists are accepted, members go
+   through CTrait.validate, every exception of a member is swallowed by the bare except, the result is an exact tuple,
+   then fvalidate decides (a total function: its answer is oracle 500 + fv on the converted tuple) *)
+Definition seq_items (v : pv) : option (list pv) :=
+  match v with PTuple l | PTupleSub l | PList l => Some l | _ => None end.
+Definition fv_ok (E : env) (fv : option Z) (w : pv) : bool :=
+  match fv with
+  | None => true
+  | Some f => match oracle E (500 + f) w with Some x => truthy x | None => false end
+  end.
+Definition vtuple_check (cv : desc -> pv -> vres) (E : env) (ds : list desc) (fv : option Z) (v : pv) : vres :=
+  match seq_items v with
+  | Some vs =>
+      if Nat.eqb (length vs) (length ds) then
+        match members cv ds vs with
+        | TOk ws => if fv_ok E fv (PTuple ws) then Accept (PTuple ws) else Reject
+        | _ => Reject
+        end
+      else Reject
+  | None => Reject
+  end.
+
+(* List.validate (trait_types.py:2631-2648): a list within the length bounds is copied into a TraitListObject, whose
+   constructor validates every item through item_trait.validate = CTrait.validate of the item trait, in order
+   (trait_list_object.py:571-588, 854-870); the first failing item decides *)
+Definition all_items (f : pv -> vres) : list pv -> tres :=
+  fix go vs :=
+    match vs with
+    | [] => TOk []
+    | x :: r =>
+        match f x with
+        | Accept w => match go r with TOk ws => TOk (w :: ws) | t => t end
+        | Reject => TRej
+        | Propagate e => TExn e
+        end
+    end.
+Definition list_check (f : pv -> vres) (minlen maxlen : Z) (v : pv) : vres :=
+  match v with
+  | PList vs =>
+      let n := Z.of_nat (length vs) in
+      if (minlen <=? n) && (n <=? maxlen) then
+        match all_items f vs with
+        | TOk ws => Accept (PList ws)
+        | TRej => Reject
+        | TExn e => Propagate e
+        end
+      else Reject
+  | _ => Reject
+  end.
+
 (* ---------- the validators ---------- *)
 Fixpoint c_validate (E : env) (d : desc) (v : pv) {struct d} : vres :=
   match d with
@@ -392,6 +447,10 @@ Fixpoint c_validate (E : env) (d : desc) (v : pv) {struct d} : vres :=
   | DPrefixMap m => py_prefix (map fst m) v
   | DUnion ds => first_sel (fun _ => true) (fun a => c_validate E a v) ds   (* Union.validate 4189 *)
   | DArray dt shape casting => py_array E dt shape casting v
+  | DProperty d' => py_validate E d' v          (* traits.py:573-575: fvalidate = handler.validate *)
+  | DVTuple ds fv => vtuple_check (c_validate E) E ds fv v
+  | DList d' mn mx => list_check (c_validate E d') mn mx v
+  | DRangeDyn _ _ _ => Reject                   (* no instance here: the state-dependent validator is C01.Model.validate_s *)
   end
 
 (* one case of the switch in validate_trait_complex; `Reject` = `break` (try the next item) *)
@@ -465,7 +524,7 @@ with c_case (E : env) (d : desc) (v : pv) {struct d} : vres :=
       | x => x
       end
   | DAny | DRangeI _ _ _ | DType _ _ | DString _ _ _ | DPrefixList _ | DPrefixMap _
-  | DUnion _ | DArray _ _ _ => Reject          (* never entered in the fast list (wf_desc) *)
+  | DUnion _ | DArray _ _ _ | DProperty _ | DVTuple _ _ | DList _ _ _ | DRangeDyn _ _ _ => Reject    (* never in the fast list *)
   end
 
 with py_validate (E : env) (d : desc) (v : pv) {struct d} : vres :=
@@ -555,15 +614,23 @@ with py_validate (E : env) (d : desc) (v : pv) {struct d} : vres :=
   | DUnion ds =>                                                (* Union.validate 4189: CTrait.validate of each *)
       first_sel (fun _ => true) (fun a => c_validate E a v) ds
   | DArray dt shape casting => py_array E dt shape casting v
+  | DProperty d' => py_validate E d' v
+  | DVTuple ds fv => vtuple_check (c_validate E) E ds fv v
+  | DList d' mn mx => list_check (c_validate E d') mn mx v
+  | DRangeDyn _ _ _ => Reject
   end.
 
 (* ---------- well-formedness of a description (what the constructors can build) ---------- *)
+Definition is_property (d : desc) : bool := match d with DProperty _ => true | _ => false end.
 Fixpoint wf_desc (d : desc) : bool :=
   match d with
+  | DProperty d' => wf_desc d'
+  | DVTuple ds _ => forallb wf_desc ds
+  | DList d' _ _ => wf_desc d'
   | DTuple ds => forallb wf_desc ds
   | DCompound ds =>
       forallb wf_desc ds &&
-      forallb (fun a => match a with DAny | DModule => false | _ => true end) ds &&
+      forallb (fun a => match a with DAny | DModule | DProperty _ => false | _ => true end) ds &&
       negb (is_nil_pv ds)
   | DUnion ds => forallb wf_desc ds && negb (is_nil_pv ds)
   | _ => true
